@@ -372,7 +372,9 @@ Definition look_to_has_been_called (nested : world -> Q -> world) (w : world) (c
   end.
 
 Definition on_look_to (nested : world -> Q -> world) (w : world) : hres :=
-  if check_start_row w && check_bells w (b_gen (w_bot w)) then look_to_has_been_called nested w (w_now w)
+  (* the generator about to be rung: the queued one if there is one *)
+  let g := match b_next_gen (w_bot w) with Some g => g | None => b_gen (w_bot w) end in
+  if check_start_row w && check_bells w g then look_to_has_been_called nested w (w_now w)
   else hok w.
 
 (* sort by key descending, stable *)
